@@ -67,18 +67,56 @@ def prog_build(pr):
     return UNOPS[pr[1]](prog_build(pr[2]))
 
 
-def prog_plain(pr, env):
-    """the same program on plain numbers"""
+INEXACT = (float, complex)
+
+
+def close(a, b):
+    return abs(complex(a) - complex(b)) <= 1e-9 * max(1.0, abs(complex(a)))
+
+
+def exact_env(env):
+    return {k: (Fraction(v) if isinstance(v, int) and not isinstance(v, bool) else v)
+            for k, v in env.items()}
+
+
+def _frac_consts(e):
+    """the tree with every int constant as a Fraction (so that int / int stays exact)"""
+    from pymbolic.mapper import IdentityMapper
+
+    class M(IdentityMapper):
+        def map_constant(self, expr, *a, **k):
+            return Fraction(expr) if isinstance(expr, int) and not isinstance(expr, bool) else expr
+    try:
+        return M()(e)
+    except Exception:
+        return e
+
+
+def prog_plain(pr, env, exact=False):
+    """the same program on plain numbers (`exact`: integers travel as Fractions)"""
     if pr[0] == "leaf":
         if pr[1].startswith("(FracLeaf"):
             _h, n, d = pr[1].strip("()").split()
             return Fraction(int(n), int(d))
         if "FracLeaf" in pr[1]:
             raise ValueError("float inside a composite leaf")
-        return pyeval(sx_to_expr(loads(pr[1])), env)
+        e = sx_to_expr(loads(pr[1]))
+        if exact:
+            e = _frac_consts(e) if isinstance(e, p.Expression) else (
+                Fraction(e) if isinstance(e, int) and not isinstance(e, bool) else e)
+        return pyeval(e, env)
     if pr[0] == "bin":
-        return BINOPS[pr[1]](prog_plain(pr[2], env), prog_plain(pr[3], env))
-    return UNOPS[pr[1]](prog_plain(pr[2], env))
+        return BINOPS[pr[1]](prog_plain(pr[2], env, exact), prog_plain(pr[3], env, exact))
+    return UNOPS[pr[1]](prog_plain(pr[2], env, exact))
+
+
+def may_round(pr):
+    """can a float arise anywhere in the plain computation?"""
+    if pr[0] == "leaf":
+        return any(t in pr[1] for t in ("(Flt", "(Quotient", "(Power"))
+    if pr[0] == "bin" and pr[1] in ("truediv", "pow"):
+        return True
+    return any(may_round(q) for q in pr[2:])
 
 
 def has_node(pr):
@@ -161,23 +199,29 @@ def value_oracle(pr):
             got = ex
         ok = False
         try:
-            if isinstance(want, float) or isinstance(got, float):
-                ok = (not isinstance(got, Exception)) and abs(float(want) - float(got)) <= 1e-9 * max(1.0, abs(float(want)))
+            if isinstance(want, INEXACT) or isinstance(got, INEXACT):
+                ok = (not isinstance(got, Exception)) and close(want, got)
             else:
                 ok = bool(want == got)
         except Exception:
             ok = False
-        if not ok and has_float_leaf(pr):
-            # a float operand makes the plain computation a ROUNDED one (e.g. 5 // (0.0 + x/y) is
-            # off by one through rounding); judge against the same computation in exact rationals
+        if not ok and may_round(pr):
+            # a float anywhere (a float operand, int / int, a negative or fractional power) makes
+            # the plain computation a ROUNDED one (e.g. 5 // (0.0 + x/y) is off by one, 1 % 0.1 is
+            # 0.0999…); judge against the same computation in exact rationals.  No verdict when
+            # that is undefined or itself inexact (floats are outside the exact fragment).
             try:
-                exact = prog_plain(exactify(pr), env)
-                if isinstance(got, float):
-                    ok = abs(float(exact) - got) <= 1e-9 * max(1.0, abs(float(exact)))
+                exact = prog_plain(exactify(pr), exact_env(env), exact=True)
+                if isinstance(got, Exception):
+                    ok = False
+                elif isinstance(exact, INEXACT):
+                    ok = True         # irrational power: rounding may be amplified, no verdict
+                elif isinstance(got, INEXACT):
+                    ok = close(exact, got)
                 else:
-                    ok = (not isinstance(got, Exception)) and bool(exact == got)
+                    ok = bool(exact == got)
             except Exception:
-                ok = True      # exact version undefined (e.g. float-only operation): no verdict
+                ok = True
         if not ok:
             shown = {k: v for k, v in env.items() if k in "xyz"}
             # a known fold below may leave an == value of another TYPE (x // True -> x keeps a
